@@ -137,10 +137,20 @@ func (k *kase) consume(b buffer.Buffer, m []string, o *obs) {
 		}()
 		k.consume(b1, m[1:], o)
 		wg.Wait()
+	case "wt":
+		k.consume(b.WithTask(func() error { return nil }), m[1:], o)
+	case "eh":
+		k.consume(buffer.WithErrorHandler(b, &passThrough{}), m[1:], o)
 	default:
 		o.res = "bad-method"
 	}
 }
+
+// passThrough is an ErrorHandler that changes nothing: every error is handed back as it is.
+type passThrough struct{ errors, done int }
+
+func (h *passThrough) OnError(err error) (buffer.Buffer, error) { h.errors++; return nil, err }
+func (h *passThrough) Done()                                    { h.done++ }
 
 // execImpl creates the buffer with the real constructor and consumes it.
 func (k *kase) execImpl() *obs {
